@@ -99,7 +99,11 @@ META = {
         "at default margins, plus every single [thorough: and "
         "double] deviation of line_overlap{0,1} char_margin{0,1000} line_margin{0,100} word_margin{0,100} at "
         "(0.5,True,True) [thorough: single deviations also at boxes_flow=None]). A case is one (sequence, LAParams) "
-        "pair, distinct by construction; non-trivial = the result tree contains a container with >= 2 members (a line "
+        "pair, distinct by construction; plus the family vcols: two or three vertical columns of two stacked 16-high glyphs each "
+        "(column A x 40..56; column B at x0 in {32,36,40,44,48,52,60} with width {8,12,16,24}, level or 4 lower; optional third "
+        "column), every content order of the columns, with and without a far-away separator glyph between columns, so that "
+        "vertical boxes hold lines of different widths with nested, partially overlapping, equal-edge and disjoint x-extents; "
+        "non-trivial = the result tree contains a container with >= 2 members (a line "
         "with 2 glyphs, a box with 2 lines or a group). states = glyph sequences (nodes of the sequence tree), "
         "transitions = analyses run, traces = analyses whose result tree passed through the complete invariant walk."
     ),
@@ -413,9 +417,40 @@ def check_case(specs, p, st):
             st.violation(sig, case, exp, obs, sig.split("/", 1)[1])
 
 
+# ---- family "vcols": vertical boxes whose lines have different widths (nested / partially overlapping x-extents)
+VC_X0 = [32, 36, 40, 44, 48, 52, 60]      # left edge of column B; column A spans x 40..56
+VC_W = [8, 12, 16, 24]                    # width of column B (A is 16 wide)
+VC_SEP = ("x", 80, 10, 8, 8, "h")         # far-away glyph that makes the columns non-consecutive in the content
+VC_THIRD = [None, (44, 8), (30, 12)]      # optional third column (x0, w)
+
+
+def _vcol(texts, x0, w, ytop, h=16):
+    return [(t, x0, ytop - (i + 1) * h, w, h, "h") for i, t in enumerate(texts)]
+
+
+def vcols_sequences(ix):
+    """every arrangement of the family with column B at VC_X0[ix]"""
+    xb = VC_X0[ix]
+    for wb in VC_W:
+        for dy in (0, 4):                  # B level with A / shifted down by 4 (still aligned within the tolerance)
+            for third in VC_THIRD:
+                for sep in (True, False):
+                    cols = [_vcol("AB", 40, 16, 80), _vcol("cd", xb, wb, 80 - dy)]
+                    if third:
+                        cols.append(_vcol("ef", third[0], third[1], 80))
+                    for order in itertools.permutations(range(len(cols))):
+                        specs = []
+                        for k, ci in enumerate(order):
+                            if k and sep:
+                                specs.append(VC_SEP)
+                            specs += cols[ci]
+                        yield specs
+
+
 def shards(tier):
     out = [("short",)]
     out += [("pre", i, j) for i in range(len(POOL)) for j in range(len(POOL))]
+    out += [("vcols", i) for i in range(len(VC_X0))]
     return out
 
 
@@ -435,6 +470,15 @@ def run_shard(shard, tier, st):
     maxlen = BOUNDS[tier]["max_len"]
     full = param_grid(tier)
     quick = param_grid("quick")
+    if shard[0] == "vcols":
+        specs = None
+        for specs in vcols_sequences(shard[1]):
+            st.states += 1
+            for p in full:
+                check_case(specs, p, st)
+        if shard[1] == 3:
+            st.sample({"family": "vcols", "glyphs": specs, "params": full[-1], "n_params": len(full)})
+        return
     first = True
     for seq in _seqs(shard, maxlen):
         specs = [POOL[i] for i in seq]
